@@ -23,3 +23,4 @@ def run(repo, res, tier):
     # the permitted in-place conversion goes through item assignment: its documented effect (replace the first pair with
     # that key, drop the later pairs *with that key*) is part of what "does not damage its argument" rests on
     multidict.rule_m4(repo, res)
+    effects.rule_iter_mut(repo, res)
